@@ -637,8 +637,8 @@ def run(ctx):
     for c in corpus():
         dispatch(ctx, c)
     rng = ctx.rng
-    n_walk = ctx.budget(500, 40000)
-    n_small = ctx.budget(300, 20000)
+    n_walk = ctx.budget(500, 6000)
+    n_small = ctx.budget(300, 6000)
     for _ in range(n_walk):
         dispatch(ctx, gen_walk(rng))
         if ctx.violations:
